@@ -445,8 +445,14 @@ func c07Outside(rep *vk.Report, idx int, r *rand.Rand, prop string) {
 	if r.IntN(2) == 0 {
 		pols = []failsafe.Policy[int]{retrypolicy.Builder[int]().WithMaxRetries(1).Build(), probe, T}
 	}
+	// the function either returns the context's error as soon as it is cancelled, or is slow to react and is still running
+	// when the limit passes (then the Timeout does expire: a regular timeout, listener and all)
+	slow := r.IntN(3) == 0
 	fn := func(e failsafe.Execution[int]) (int, error) {
 		<-e.Canceled()
+		if slow {
+			time.Sleep(L + L/2)
+		}
 		return 0, e.Context().Err()
 	}
 	var err error
@@ -468,6 +474,9 @@ func c07Outside(rep *vk.Report, idx int, r *rand.Rand, prop string) {
 	if timedOutApps.Load() == 0 {
 		rep.Count("outside_cancellation_scenarios", 1)
 		rep.Distinct(fmt.Sprintf("outside|%d|%d", L, len(pols)))
+	} else if slow {
+		rep.Count("outside_cancellation_then_regular_timeout_of_slow_function", 1)
+		rep.Distinct(fmt.Sprintf("outside-slow|%d|%d", L, len(pols)))
 	} else {
 		rep.Count("outside_cancellation_scenarios_stalled_into_regular_timeout", 1)
 	}
